@@ -106,7 +106,9 @@ def _dqn_common(name, sc, mod, train, extra_kwargs, uses_target, per=False, has_
     if uses_target:
         tgt = nnx.clone(q_net)
         rec.watch_module("q_target", tgt)
-        kwargs.update(q_target_net=tgt, update_frequency=sc.get("update_frequency", 1), target_update_frequency=sc.get("target_update_frequency", 3))
+        # scenario B: an update frequency that does not divide the target frequency (2 vs 3)
+        uf = sc.get("update_frequency", 2 if sc.get("label") in ("B", "E") else 1)
+        kwargs.update(q_target_net=tgt, update_frequency=uf, target_update_frequency=sc.get("target_update_frequency", 3))
     if has_limit and sc.get("eplimit"):
         kwargs["total_episodes"] = sc["eplimit"]
     if has_warm:
@@ -142,7 +144,7 @@ def _dqn_common(name, sc, mod, train, extra_kwargs, uses_target, per=False, has_
     # DQN has no such parameter (it trains once more than one batch is stored - not judged)
     cfg = base_cfg(name, sc, warmlearn=sc["warm"] if has_warm else -1, warmact=sc["warm"] if has_warm else -1, explore_only_in_warmup=False,
                    policy_probe=True, ret_applicable=True, trained=["q"], targets=["q_target"] if uses_target else [], eplimit=sc.get("eplimit", 0) if has_limit else 0,
-                   epsilon4=-1 if eps is None else int(eps * 4), rules=_rules)
+                   epsilon4=-1 if eps is None else int(eps * 4), rules=_rules, pairs=[["q_target", "q"]] if uses_target else [])
     ret = None if res is None else getattr(res, "global_step", None)
     return finish(rec, name, sc, cfg, returned=ret, final=final_digests(q=q_net, q_target=tgt), error=err)
 
@@ -239,7 +241,7 @@ def _ddpg_like(name, sc, train, double_q, extra, lap=False):
         jax.effects_barrier()
         _PROBE["fn"] = None
     cfg = base_cfg(name, sc, warmlearn=sc["warm"], warmact=sc["warm"], explore_only_in_warmup=True, policy_probe=True, ret_applicable=True,
-                   trained=["policy", "q"], targets=["policy_target", "q_target"], ulpk=2, eplimit=sc.get("eplimit", 0) if name != "td3_lap" else 0,
+                   trained=["policy", "q"], targets=["policy_target", "q_target"], pairs=[["policy_target", "policy"], ["q_target", "q"]], ulpk=2, eplimit=sc.get("eplimit", 0) if name != "td3_lap" else 0,
                    rules=_rules)
     ret = None
     if res is not None:
